@@ -38,7 +38,8 @@ PmFold(c, o, ev) ==
          [o EXCEPT !.tick = ev.n, !.startsInTick = [i \in Slots(c) |-> 0],
                    !.reloadDue = IF o.reloadNext THEN ev.n ELSE 0, !.reloadNext = FALSE,
                    !.shutDue = IF o.shutNext THEN ev.n ELSE (IF o.shutDue # 0 THEN o.shutDue ELSE 0), !.shutNext = FALSE]
-    [] ev.e = "die" -> [o EXCEPT !.cur[ev.slot].alive = FALSE, !.cur[ev.slot].diedAt = o.tick]
+    (* a worker that dies while the pool is being spawned (tick 0) is first looked at by the scan of tick 1 *)
+    [] ev.e = "die" -> [o EXCEPT !.cur[ev.slot].alive = FALSE, !.cur[ev.slot].diedAt = IF o.tick = 0 THEN 1 ELSE o.tick]
     [] ev.e \in {"sighup", "reload"} ->
          IF ev.s = "sleep" THEN [o EXCEPT !.reloadDue = o.tick] ELSE [o EXCEPT !.reloadNext = TRUE]
     [] ev.e = "sigint" ->
